@@ -145,7 +145,10 @@ def main():
         }],
         'checks': checks,
         'not_applicable': na,
-        'notes': 'All checks rebuild the library objects they need from ${LIBCPERCIVA_REPO:-/repo} on every run. VERIF_SEED selects the PRNG seed. Exit 2 = inconclusive.',
+        'notes': 'All checks rebuild the library objects they need from ${LIBCPERCIVA_REPO:-/repo} on every run. VERIF_SEED selects the PRNG seed. Exit 2 = inconclusive. '
+                 'Genuine defects found by the checks were repaired in /repo by ten unguarded "fix:" commits (listed with their alarm keys in known-findings.txt, '
+                 'DESIGN.md section 5); there is no open known finding. Validation of the checks themselves: mutants/ (tools/mutants_run.py) and seeded/ '
+                 '(about 300 breaking changes written by independent sub-agents, tools/confirm_seed.py, tools/seeded_regress.py; DESIGN.md section 11).',
     }
     if not na:
         del man['not_applicable']
